@@ -357,6 +357,14 @@ def _cls_ctl_all(ic, tier):
                 return [y]
             fr.append((f"Case(a+b,{{0:y{tlabel(t)}<={x[0]},3:1,-1:2,8:3,default:4}})", f5))
 
+            def f7(m, env, x=x, t=t):
+                # items with an explicitly empty statement list ("do nothing for this value") next to a default: the item must
+                # still be printed, otherwise the default body runs for that value
+                y = m.new_target(t, reset=5)
+                m.comb += Case(env["a"], {0: [], 1: y.eq(x[1](env)), -2: [], "default": y.eq(env["b"])})
+                return [y]
+            fr.append((f"Case(a,{{0:[],1:y{tlabel(t)}(reset5)<={x[0]},-2:[],default:b}})", f7))
+
             def f6(m, env, x=x, t=t):
                 y = m.new_target(t)
                 m.comb += y.eq(Array([x[1](env), env["b"], Constant(5), env["a"]])[env["c"]])
@@ -532,6 +540,8 @@ class SeqProg(Module):
                 Case(Cat(en, b[0]), {0: r5[0:3].eq(a), 1: r5[3:6].eq(b), 3: r5.eq(0)}),
                 r6.eq(Mux(en, r6, a)),
             ]
+            r7 = R((4, False), 9)
+            sync += Case(b, {0: [], 2: r7.eq(a), 3: [], "default": r7.eq(r7 + 1)})
         elif kind == "acc":
             r1 = R((3, False), 1); r2 = R((4, True), 0b1000); r3 = R((3, False), 0); r4 = R((2, False), 3)
             sync += [
